@@ -302,7 +302,7 @@ def corr_serialize3(chk, n, vt, vm, vs):
     rng, drv = chk.rng, chk.driver()
     cases = []
     # exhaustive: every cell of the table x a value of each shape
-    vals = ["ab", 5, True, None, "", 0, ["x", "y"], [], [""], [1, True, None], {"r": "1", "g": "2"}, {}, {"k": True}]
+    vals = ["ab", 5, True, None, "", 0, ["x", "y"], [], [""], [1, True, None], {"r": "1", "g": "2"}, {}, {"k": True}, {"p": "own", "q": "1"}]
     for loc, style, explode, ty in itertools.product(LOCS, STYLES, EXPLODES, TYPES):
         for v in vals:
             cases.append(([raw_def("p", loc, ty, style, explode)], {"p": copy.deepcopy(v)}, "exhaustive"))
@@ -340,6 +340,20 @@ def corr_serialize3(chk, n, vt, vm, vs):
             continue
         if typed(impl) != typed(m):
             chk.disagreement("serialize_openapi3_parameters", {"defs": defs, "container": c, "vt": vt, "vm": vm, "vs": vs}, m, impl)
+        # replay: `form` + `explode: true` spreads an object over entries named after its members - every member arrives,
+        # also one that has the parameter's own name
+        if len(defs) == 1 and isinstance(impl, list):
+            d0 = defs[0]
+            v0 = c.get(d0["name"])
+            if d0["in"] == "query" and "content" not in d0 and d0.get("schema", {}).get("type") == "object" \
+                    and d0.get("style") in (None, "form") and d0.get("explode") is True and isinstance(v0, dict) and v0 \
+                    and all(isinstance(x, (str, int)) and not isinstance(x, bool) for x in v0.values()):
+                got = {k for k, _ in impl}
+                lost = [k for k in v0 if k not in got]
+                if lost:
+                    chk.violation("C06:extracted_object:member-of-an-exploded-form-object-missing-from-the-query",
+                                  f"query parameter {d0['name']!r} = {v0!r} (form, explode): members {lost} are not among the entries "
+                                  f"{sorted(got)}", {"mechanism": "serialize3", "defs": defs, "container": c, "impl": impl})
 
 
 def corr_serialize2(chk, n, vs):
@@ -1275,6 +1289,46 @@ def corr_empty_dicts(chk, n):
 TOKEN_CHARS = "abcXYZ019-_.~!*'()"
 
 
+def multipart_transports(chk):
+    """"the Content-Type equals the case's media type" for multipart bodies too: each transport writes its own boundary, so
+    the requests are compared as (media type, decoded form fields).  WSGI and ASGI in process; the fields are read back with
+    the standard multipart parser of the standard library's email package."""
+    from email import message_from_bytes
+
+    from schemathesis.transport.asgi import ASGI_TRANSPORT
+    defs = [{"name": "id", "in": "path", "required": True, "schema": {"type": "string"}}]
+    media = {"multipart/form-data": {"type": "object", "properties": {"a": {"type": "string"}, "n": {"type": "integer"}}}}
+    pl = Pipeline(defs, "/items/{id}/sub", "http://127.0.0.1:8080/api", body=media, method="post")
+    wsgi_app, asgi_app = WsgiRecorder(), AsgiRecorder()
+    for body in ({"a": "x y", "n": 5}, {"a": "é&=", "n": 0}, {"a": ""}):
+        case = pl.case({"path": {"id": "7"}}, body=copy.deepcopy(body), media_type="multipart/form-data")
+        for t, fn, rec in (("wsgi", lambda: WSGI_TRANSPORT.send(case, app=wsgi_app), wsgi_app),
+                           ("asgi", lambda: ASGI_TRANSPORT.send(case, app=asgi_app), asgi_app)):
+            rec.last = None
+            try:
+                fn()
+            except Exception as e:  # noqa: BLE001
+                chk.violation(f"C06:transport[{t}]:send-raised-{type(e).__name__}", f"{t} transport raised {e!r} for a multipart body",
+                              {"mechanism": "multipart", "body": body})
+                continue
+            got = rec.last
+            ct = (got["headers"].get("content-type") or "") if got else ""
+            fields = None
+            if ct.lower().startswith("multipart/form-data"):
+                msg = message_from_bytes(b"Content-Type: " + ct.encode("latin-1") + b"\r\n\r\n" + got["body"])
+                if msg.is_multipart():
+                    fields = {p_.get_param("name", header="content-disposition"): (p_.get_payload(decode=True) or b"").decode("utf-8")
+                              for p_ in msg.get_payload()}
+            chk.case(f"transport:multipart[{t}]", key=[t, body], nontrivial=True, sample={"body": body, "content_type": ct, "fields": fields})
+            chk.feature(f"transport:multipart:{t}")
+            want = {k: str(v) for k, v in body.items()}
+            if fields != want:
+                chk.violation(f"C06:transport[{t}]:multipart-body-not-delivered-as-multipart",
+                              f"{t}: a multipart/form-data case with the fields {want} arrives with Content-Type {ct!r} and is read "
+                              f"back as {fields}", {"mechanism": "multipart", "transport": t, "body": body, "content_type": ct,
+                                                    "raw_body": got["body"][:300].decode("latin-1") if got else None})
+
+
 def replay_transports(chk, n, loopback: bool):
     from schemathesis.transport.asgi import ASGI_TRANSPORT
 
@@ -1815,6 +1869,7 @@ def run(chk):
     coverage_stability(chk)
     lap("headers+bodies+template")
     replay_transports(chk, chk.budget(150, 2000), loopback=chk.thorough)
+    multipart_transports(chk)
     lap("transports")
     corr_history(chk, chk.budget(400, 5000), loopback=True)
     replay_cookie_header(chk, chk.budget(30, 300), True)
